@@ -469,7 +469,7 @@ func main() {
 		Rule: fmt.Sprintf("crash/hang/over-read oracle (recover() per case, supervisor surviving fatal errors, read counters on the transport) over %d decoding entry points (ReadHeader, ReadFrame, wsutil.Reader in 4 configurations, NextReader, ReadMessage, ReadData/ReadText, ControlHandler, DecompressFrame, ParseCloseFrameData+HandleControlMessage, Upgrader with Protocol/Negotiate=wsflate and with Extension, HTTPUpgrader via http.ReadRequest + hijacker stub, DebugUpgrader, Dialer with protocols/extensions offered, DebugDialer, wsflate.Parameters/Extension.Negotiate, wsflate.Reader): ", len(targets)) +
 			"(a) a deterministic structure-aware mutator (bit flips, byte/run overwrite, truncation, slice duplication/deletion, token injection, frame length-field rewrites to 126/65536/2^31..2^64-1) over valid seeds of each kind (frame streams, requests, responses, option lists, deflate streams, close payloads) under random chunk plans, 16 inputs per case; (b) short random byte strings; (c) headers announcing 2^31-1..2^63-1 bytes at every frame entry point in 4 stream shapes, each in its own process; (d) allocation metering of ReadHeader / Reader.NextFrame (<= 4 KiB per call for any announced length) and MaxFrameSize refusal without reading payload. thorough additionally runs Go's coverage-guided fuzzer on every target (see coverage.fuzz). distinct = (target, seed bucket) classes.",
 		Assumptions: []string{"entry points documented to allocate the announced length (ReadFrame, ReadMessage, DecompressFrame on ReadFrame output) receive lengths above 64 MiB only in the isolated extreme-length processes", "ControlHandler is given checked headers only, as its documentation requires", "a hang is decided by read counters on the transport; the supervisor's wall-clock watchdog only triggers isolation"},
-		HangSeconds: 150,
+		HangSeconds: 40,
 		Subs:        []mon.Sub{subMutate(), subRandomBytes(), subExtreme(), subAllocAndLimit(), subExtremeInner()},
 	})
 }
